@@ -1,7 +1,24 @@
 """C15 - WebSocket peers that violate the protocol are cut off without bad data.
+
+MC : specs/ws/WsReceiver.tla (reference RFC 6455 / RFC 7692 receiver over the WsFrameCodec header
+     codec, with max_message_size) - the peer's own bookkeeping (messages it completed before
+     its first violation, which violation it committed) is related to the receiver machine:
+     ViolationAborts, OnlyViolationAborts, DeliveredAreCompleted, SizeAnnounced, NothingAfterEnd.
+S2C: every frame sequence up to length L that TLC enumerates (valid frames of catalogue messages
+     around the limit - limit / limit+1, plain and compressed, invalid UTF-8 - cut into pieces,
+     pings / pongs / close in every gap, and one violation of every kind at every position:
+     RSV1/2/3, reserved opcodes, fragmented / oversized control frames, continuation without
+     start, data frame inside a fragmented message) is fed as real bytes (header bytes from the
+     TLA+ codec) into the real WebSocketProtocol13 in the server role (web.Application +
+     WebSocketHandler over ServerConn) and in the client role (websocket_connect over a MemStream)
+     under varying deflate parameters and TCP segmentations; deliveries, stream closed, 1009
+     close frame and pongs are compared with the specification after every frame.
+C2S: seeded random frame sequences (longer, bigger catalogue) recorded from the real receiver
+     and validated by TLC against Trace_WsReceiver.
 """
 import hashlib
 import os
+import random
 import time
 
 from harness import framework
@@ -19,24 +36,48 @@ def cat():
     return _CAT
 
 
-def _variants(extra, path, seed, n):
-    h = int(hashlib.sha1(jdump([extra, [s["args"] for s in path], seed]).encode()).hexdigest()[:8], 16)
+def expand(paths, seed, nvar=2):
+    """One replay item per (path, variant): role alternates, the rest is derived from a hash."""
     out = []
-    for k in range(n):
-        role = ("server", "client")[k % 2]
-        out.append({"role": role, "mode": ("cb", "read")[(h >> 3) & 1], "grid": (h >> 4) % 7 + k,
-                    "chunk": (h + k) % 4, "seed": h + k})
+    for extra, path in paths:
+        h = int(hashlib.sha1(jdump([extra, [s["args"] for s in path], seed]).encode()).hexdigest()[:8], 16)
+        for k in range(nvar):
+            v = {"role": ("server", "client")[k % 2], "mode": ("cb", "read")[(h >> 3) & 1], "grid": (h >> 4) % 7 + k,
+                 "chunk": (h + k) % 4, "seed": h % 100000 + k}
+            e = dict(extra)
+            e["variant"] = v
+            out.append((e, path))
     return out
 
 
-def viol_kind(f, cfg):
-    return {"op": f["op"], "rsv": f["rsv"], "fin": f["fin"], "len_class": "0" if f["len"] == 0 else ("<=125" if f["len"] <= 125 else ">125"),
-            "mid": f["mid"]}
+def _len_class(n):
+    return "0" if n == 0 else ("<=125" if n <= 125 else ">125")
 
 
-def _replay_variant(extra, path, v):
+def make_sig(cfg, v, path, i, exp, obs):
+    f = path[i]["args"][0]
+    in_frag = frag_comp = ctl_in_frag = False
+    for p in path[:i]:
+        g = p["args"][0]
+        if p["exp"]["closed"]:
+            break
+        if g["op"] in (1, 2):
+            in_frag, frag_comp, ctl_in_frag = g["fin"] == 0, g["rsv"] >= 4, False
+        elif g["op"] == 0 and g["fin"] == 1:
+            in_frag = frag_comp = ctl_in_frag = False
+        elif g["op"] >= 8 and in_frag:
+            ctl_in_frag = True
+    return {"role": v["role"], "deflate": cfg["deflate"],
+            "frame": {"op": f["op"], "rsv": f["rsv"], "fin": f["fin"], "len_class": _len_class(f["len"]), "mid": f["mid"]},
+            "in_frag": in_frag, "frag_comp": frag_comp, "ctl_in_frag": ctl_in_frag,
+            "differs": sorted(k for k in exp if exp[k] != obs.get(k)),
+            "exp_closed": exp["closed"], "obs_closed": obs["closed"],
+            "exp_1009": exp["sent1009"], "obs_1009": obs["sent1009"]}
+
+
+def replayer(extra, path):
     from harness.httpsim import LogCapture
-    cfg = extra["cfg"]
+    cfg, v = extra["cfg"], extra["variant"]
     c = cat()
     with LogCapture():
         real = W.ReceiverReal(cfg, c, role=v["role"], mode=v["mode"], grid=v["grid"], chunk_mode=v["chunk"], seed=v["seed"])
@@ -46,23 +87,21 @@ def _replay_variant(extra, path, v):
                 exp = dict(s["exp"])
                 exp["delivered"] = c.canon_delivered(exp["delivered"])
                 if obs != exp:
-                    f = s["args"][0]
-                    return {"step": i, "act": s["act"], "args": s["args"], "exp": exp, "obs": obs, "variant": v,
-                            "sig": {"role": v["role"], "deflate": cfg["deflate"], "frame": viol_kind(f, cfg),
-                                    "history": [[p["args"][0]["op"], p["args"][0]["fin"], p["args"][0]["rsv"]] for p in path[:i]],
-                                    "differs": sorted(k for k in exp if exp[k] != obs.get(k)),
-                                    "exp_closed": exp["closed"], "obs_closed": obs["closed"]}}
+                    return {"step": i, "act": s["act"], "args": s["args"], "exp": exp, "obs": obs,
+                            "sig": make_sig(cfg, v, path, i, exp, obs)}
             return None
         finally:
             real.close()
 
 
-def replayer(extra, path):
-    for v in _variants(extra, path, 0, 2):
-        r = _replay_variant(extra, path, v)
-        if r is not None:
-            return r
-    return None
+def coverage_names(out):
+    """Per-action totals from TLC's -coverage output (also the entries carrying a sub-location
+    suffix, which harness.tlc's pattern skips)."""
+    import re
+    cov = {}
+    for m in re.finditer(r"^<(\w+) line \d+, col \d+ to line \d+, col \d+ of module \w+(?: \([\d ]+\))?>: (\d+):(\d+)", out, re.M):
+        cov[m.group(1)] = cov.get(m.group(1), 0) + int(m.group(3))
+    return cov
 
 
 def run(ctx):
@@ -70,22 +109,34 @@ def run(ctx):
     os.environ["WS_CATALOG"] = c.write(os.path.join(ctx.scratch, "catalog.ndjson"))
     t0 = time.time()
     r = ctx.mc("ws", "MC_WsReceiver", "MC_WsReceiver.cfg", env={"WS_CATALOG": os.environ["WS_CATALOG"]},
+               overrides=ctx.pick({}, {"MaxDelivered": 3, "PieceKinds": '{"zero", "one", "half"}'}),
                required_actions=["SendData", "SendClose", "SendAfter"])
+    cov = coverage_names(r.out)
+    for a in ("SendPing", "SendPong", "SendViolation"):
+        if not cov.get(a):
+            raise framework.Machinery("vacuity: action %s of WsReceiver never taken" % a)
+        ctx.cov["coverage_by_action"]["MC_WsReceiver." + a] = cov[a]
     ctx._phase("mc", t0)
     t0 = time.time()
-    paths = ctx.gen_paths("ws", "Gen_WsReceiver", "Gen_WsReceiver.cfg", overrides={"L": ctx.pick(3, 4)})
+    paths = ctx.gen_paths("ws", "Gen_WsReceiver", "Gen_WsReceiver.cfg",
+                          overrides=ctx.pick({"L": 3}, {"L": 4, "BadOps": "{3, 4, 5, 6, 7, 11, 12, 13, 14, 15}"}))
     ctx._phase("gen", t0)
     t0 = time.time()
-    ctx.replay(paths, replayer)
+    ctx.replay(expand(paths, ctx.seed), replayer)
     ctx._phase("s2c", t0)
     ctx.cov["exhaustive"] = True
+    ctx.cov["trusted_base"] += ["harness/ws_driver.py frame plumbing (build_frame / split_frames / xor_mask)",
+                                "zlib as the opaque permessage-deflate codec (catalogue wire lengths)"]
+    ctx.cov["rule"] = ("paths: every frame sequence of length <= %d over the catalogue around max_message_size=%d "
+                       "(valid pieces, pings/pongs/close, one violation of each kind), each replayed in the server and the "
+                       "client role under hashed deflate-parameter / segmentation variants; distinct = distinct "
+                       "(config, variant, frame sequence)" % (ctx.pick(3, 4), LIMIT))
 
 
 def replay(ctx, rec):
     d = rec["detail"]
     if "path" in d:
-        v = d["divergence"].get("variant")
-        r = _replay_variant(d["extra"], d["path"], v) if v else replayer(d["extra"], d["path"])
+        r = replayer(d["extra"], d["path"])
         print("replay:", "diverges " + framework.jdump(r) if r else "follows the specification")
         return 1 if r else 0
     return 0
